@@ -56,8 +56,12 @@ DenUp(s, l, D) ==   \* D covers every node at a level > l
        IN DenUp(s, l - 1, new @@ D)
 DenMap(s) == DenUp(s, Len(s.order) - 1, (1 :> Univ(NV(s))))
 WithD(s) == s @@ [D |-> DenMap(s), N |-> NodesOf(s)]
+(* total on views: a dangling reference (node freed or never existed) denotes
+   the impossible model set {-1}, which equals no function -- every contract
+   that mentions it fails instead of TLC stopping *)
 Den(s, r) == IF "D" \in DOMAIN s
-             THEN (IF r > 0 THEN s.D[r] ELSE Univ(NV(s)) \ s.D[-r])
+             THEN (IF Abs(r) \notin DOMAIN s.D THEN {-1}
+                   ELSE IF r > 0 THEN s.D[r] ELSE Univ(NV(s)) \ s.D[-r])
              ELSE DenSlow(s, r)
 DenMapAgrees(s) == \A n \in Nodes(s) : DenMap(s)[n] = DenSlow(s, n)
 
